@@ -331,7 +331,17 @@ func (e *Env) eval(x Expr) Val {
 				}
 				pats = append(pats, ":pattern ("+strings.Join(ts, " ")+")")
 			}
-			bt = "(! " + bt + " " + strings.Join(pats, " ") + ")"
+			okPat := true
+			for _, pt := range pats {
+				for _, bad := range []string{"(ite ", "(not ", "(and ", "(or ", "(=> ", "(= ", "(<= ", "(< ", "(>= ", "(> "} {
+					if strings.Contains(pt, bad) {
+						okPat = false // solvers reject patterns with logical/ite terms (e.g. an ite-merged heap): drop the pattern
+					}
+				}
+			}
+			if okPat {
+				bt = "(! " + bt + " " + strings.Join(pats, " ") + ")"
+			}
 		}
 		q := "forall"
 		if !x.Forall {
